@@ -393,8 +393,16 @@ def setters(facts):
             good = fv is not None and ((isinstance(fv, A.Struct) and fv.variant == "Some" and _d(I, o.state, fv.fields.get("0")) == "X") or (not (isinstance(fv, A.Struct) and fv.adt == "core::option::Option") and _d(I, o.state, fv) == "X"))
             if not good:
                 probs.append("after the call .%s is %r, not the argument, when [%s]" % (field, fv, " & ".join(o.state.cond)[-120:]))
+        how = "stores its argument"
+        if probs and "generic_parser::GenericParser" in b["id"]:
+            # the expected values are kept differently (Option fields, a nested private struct ..): decided through the API instead - a
+            # parser obtained by default(), set_footer(F), set_implicit_assertion(A) hands F and A to the core call of every parse method
+            from . import claims_sem
+            if claims_sem.api_state_decides(facts):
+                probs = []
+                how = "what it is given reaches the core call of every parse method (state built through default() and the setters)"
         fs = [Finding(r, not probs, b["id"], "setter stores its argument", "%s must store its argument in .%s on every path; %s" % (M.short(b["id"]), field, "; ".join(sorted(set(probs)))[:300]), v.file(), b["line"],
-                      "%s stores its argument" % M.short(b["id"])) for r in rules]
+                      "%s: %s" % (M.short(b["id"]), how)) for r in rules]
         # frame condition: what was set earlier through the sibling setters stays (a setter that rebuilds the object from defaults silently
         # drops a footer / assertion / payload given before it)
         clobbered = {}
@@ -460,6 +468,14 @@ MUTABLE_STATE = (r"^std::thread::local::LocalKey::<T>::(with|try_with|with_borro
                  r"^std::sync::(once_lock::)?OnceLock::<T>::(set|get|take|get_mut)$|^once_cell::|^lazy_static::")
 
 
+# callee names as the fact extractor prints them: the first group must match the table on every run (a table that matches nothing
+# passes vacuously), the second must not (write-once initialisation without arguments, plain values)
+STATE_SAMPLES = (["std::thread::local::LocalKey::<T>::with", "std::sync::poison::mutex::Mutex::<T>::lock", "core::cell::RefCell::<T>::borrow_mut",
+                  "core::sync::atomic::AtomicUsize::fetch_add", "core::cell::Cell::<T>::set", "std::sync::once_lock::OnceLock::<T>::set"],
+                 ["std::sync::once_lock::OnceLock::<T>::get_or_init", "std::sync::lazy_lock::LazyLock::<T, F>::force", "core::cell::RefCell::<T>::new",
+                  "std::collections::HashMap::<K, V, S>::insert"])
+
+
 def process_state(facts, entries, rule, roles=("producer", "consumer")):
     """What a token operation returns is a function of its arguments (and, for local producers, fresh randomness): no function reachable
     from the entry points reads or writes state that outlives the call - thread-locals, statics behind Mutex / RwLock / atomics,
@@ -469,6 +485,9 @@ def process_state(facts, entries, rule, roles=("producer", "consumer")):
     roots = [e.id for e in entries if e.role in roles]
     reach = M.reachable_bodies(facts, roots, g)
     out = []
+    miss = [x for x in STATE_SAMPLES[0] if not re.search(MUTABLE_STATE, x)] + [x for x in STATE_SAMPLES[1] if re.search(MUTABLE_STATE, x)]
+    if miss:
+        out.append(Finding(rule, False, "(rule table)", "self-test of the state table", "the table of state-touching callees misclassifies %s" % miss))
     n = 0
     for bid in sorted(reach):
         b = facts.bodies[bid]
@@ -483,6 +502,64 @@ def process_state(facts, entries, rule, roles=("producer", "consumer")):
                                    v.file(), t["ln"]))
     out.append(Finding(rule, not [f for f in out if not f.ok], "(reachable set)", "no state that outlives a call", "see above", None, None,
                        "%d functions reachable from the %d %s entry points (%d calls): none touches thread-local, locked, atomic or interior-mutable state" % (len(reach), len(roots), " / ".join(roles), n)))
+    return out
+
+
+CLONED_STATE = r"::(Paseto|Footer|ImplicitAssertion|Payload|Header|Key|GenericBuilder|GenericParser|PasetoBuilder|PasetoParser|PasetoNonce|PasetoSymmetricKey|PasetoAsymmetricPublicKey|PasetoAsymmetricPrivateKey)<"
+
+
+def clone_identity(facts, rule):
+    """A copy of a builder, parser, key or carrier value stands for the original: `Clone::clone` of these types returns a value whose
+    every field is the corresponding field of `self` (a hand-written impl that rebuilds the value from defaults loses a footer, an
+    implicit assertion or a payload set before it - the token issued from the clone is then authenticated over something else).
+    Each `impl Clone` of the listed crate types is interpreted on an opaque self."""
+    from . import absint as A
+    from . import models as MD
+    out = []
+    n = 0
+    for bid, b in sorted(facts.bodies.items()):
+        if not ((b.get("impl_trait") or "").startswith("core::clone::Clone") and bid.endswith("::clone")):
+            continue
+        if not re.search(CLONED_STATE, "::" + (b.get("impl_self") or "")):
+            continue
+        n += 1
+        I = A.Interp(facts, MD.MODELS, max_paths=400)
+        st = A.State()
+        outs = I.run(b, [A.Ptr(st.new_cell(A.Sym("self")))], st)
+        probs = []
+        if not outs:
+            probs.append("no outcome")
+        for o in outs:
+            if o.kind != "return" or o.state.unmodelled:
+                probs.append("not decided by the abstract interpreter (%s %s)" % (o.kind, o.state.unmodelled[:2]))
+                continue
+
+            def same(v, path, d=0):
+                v = I.resolve(o.state, v)
+                if isinstance(v, A.Ptr):
+                    v = MD.deref(I, o.state, v)
+                if isinstance(v, A.Struct) and v.adt and v.adt.startswith("core::marker::PhantomData"):
+                    return None
+                if isinstance(v, A.Struct) and v.adt and v.adt.endswith("::Header") and d > 0:
+                    return None     # the header is a function of the type parameters alone (C07.R3 decides the table), not of the value cloned
+                if isinstance(v, (A.Sym, A.Seq)):
+                    nm = re.sub(r"[*&$]", "", v.name)
+                    return None if nm == path else "%s is %s" % (path, nm)
+                if v is A.UNIT or isinstance(v, A.Struct) and not v.fields and v.variant in (None, v.adt.split("::")[-1] if v.adt else None):
+                    return None
+                if isinstance(v, A.Struct) and d < 6 and v.variant in (None, (v.adt or "").split("::")[-1]):
+                    for k, fv in v.fields.items():
+                        r = same(fv, "%s.%s" % (path, k), d + 1)
+                        if r:
+                            return r
+                    return None
+                return "%s is %r" % (path, v)
+            r = same(o.value, "self")
+            if r:
+                probs.append("the clone's %s, not the original's value [%s]" % (r[:120], " & ".join(o.state.cond)[-120:]))
+        v = M.view(facts, b)
+        out.append(Finding(rule, not probs, bid, "clone differs from the original" if probs else "clone is the identity", "; ".join(sorted(set(probs)))[:400], v.file(), b["line"],
+                           "%s: every field of the clone is the field of the original" % M.short(b.get("impl_self") or bid)[-60:]))
     return out
 
 
